@@ -125,7 +125,12 @@ class Parked:
         out, err = self.so.read().decode("utf-8", "replace"), self.se.read().decode("utf-8", "replace")
         steps = strace.parse(open(self.out.name).read(), self.store)
         os.unlink(self.out.name)
-        return {"exit": rc, "stdout": out, "stderr": err, "steps": steps}
+        res = {"exit": rc, "stdout": out, "stderr": err, "steps": steps}
+        # strace's own failures (e.g. "strace: ptrace(PTRACE_LISTEN,…): Input/output error" when a CONT races its group-stop handling)
+        # replace the tracee's exit status by strace's: such a run says nothing about ergo
+        if any(l.startswith("strace: ") for l in err.splitlines()):
+            res["tracer_error"] = [l for l in err.splitlines() if l.startswith("strace: ")][0][:200]
+        return res
 
 
 def run_concurrently(store, cmds, env=None, binary=None, timeout=30):
